@@ -1362,9 +1362,16 @@ def run(ctx):
                 'the caller editing its binding in place (the same binding replayed again, on the other object, after an edit; the same call bound again '
                 'after the first binding was edited), with ALL the caller\'s bindings compared after every step; (e) every history of one ready-made '
                 'decorator OBJECT of each of the 15 kinds applied to two functions made from one code object and to its own results, the decorated functions '
-                'called in any order (outcome, evaluations of BOTH functions, projection and argspec of every object).  C2S: random signatures, calls with '
+                'called in any order (outcome, evaluations of BOTH functions, projection and argspec of every object); (b\'\') every chain of <= 2 of the 9 decorators x '
+                'calls with 2-4 keywords (0-1 positional, the failing / quiet value in every place) x EVERY ORDER the keywords can be written in at the call site '
+                '(the first parameter is the one f names first, not the keyword written first); the bind cases rotate the spelling too.  C2S: random signatures, calls with '
                 'strange values and every failure realisation, longer mixed wrap/call histories, memo sequences with unhashable keys, binding sessions, '
-                'sessions of 1-3 ready-made decorator objects over three functions, validated by Trace_Decorators.  Non-trivial = a call using '
+                'sessions of 1-3 ready-made decorator objects over three functions, validated by Trace_Decorators (every call with the order its keywords were '
+                'written in, judged as a spelling of the call); LONG histories on ONE object as behaviours of Trace_DecoratorsLong: cache(f) with 300 / 1100 (thorough 2100) '
+                'distinct combinations in 8 key shapes (positional, keyword, mixed, hashable containers, strings, *args, extra **kw, three keywords) followed by repeats of '
+                'early, middle and late ones, a new one and the early ones again; the same on 8 chains with a cache layer and on a ready-made cache_func() object applied '
+                'to two functions; 400 calls on one object of 7 chains without a memo (transparency after many calls); single calls with 17..257 (513) extra positional '
+                'arguments and keywords.  Non-trivial = a call using '
                 'keywords/extras/defaults, a history in which a wrapper class is applied twice, a call sequence with a repeated key, a failure other than '
                 'ValueError("bad"), a binding used by more than one step, a decorator object applied to two functions and called twice; distinct by abstract case.')
     import time
@@ -1438,6 +1445,9 @@ def run(ctx):
         'ready-made decorator objects: the second function is the twin with the other default values (same calls valid, other results); evaluation counts of a decorated '
         'function are pinned only for cache(f) itself while no other cached wrapper of f exists (SharedMemo); no function but the one called may be evaluated at all',
         'evaluation counts are pinned only for cached functions; memo keys avoid values that Python itself treats as equal (1, 1.0, True)',
+        'keyword order: every permutation of <= 4 keywords on 5 signatures; longer keyword lists only in shuffled C2S calls',
+        'long histories: sizes 300 / 1100 / 2100 distinct combinations (thresholds 16..2048 are crossed; a bound beyond 2100 entries or calls is not); the order of the '
+        'repeats is early, middle, late, random, new, early again - not every interleaving',
         'small scope: histories of <= 4 (quick; 5th step only in MC thorough) Wrap steps over 7 kinds, call menus of <= 27 calls on 3-5 base signatures']
 
 
